@@ -29,6 +29,7 @@ func flock(db *DB, exclusive bool, timeout time.Duration) error {
 	}
 	for {
 		// Attempt to obtain an exclusive lock.
+		verifYield(db, "flock.try")
 		err := syscall.Flock(int(fd), flag)
 		if err == nil {
 			return nil
